@@ -550,6 +550,13 @@ def run(prog, rep, tier):
     fp = need(prog, LG + "_parse_interventions")
     Sp = Sym(prog)
     sp, _ = run_function(Sp, fp)
+    ret0 = T(sp.ret)
+    if list(fp.params) != ["interventions_dict"] or ret0[0] == "tuple":
+        # the private parser is a unit with a contract between it and LGANM.sample (one array, rows [target, mean, variance]); with another signature or
+        # another kind of result that contract is a different one, which these rules do not know
+        rep.unk("LAYOUT.producer", fwhere(fp), "_parse_interventions%s returns %s: not the (interventions_dict) -> array-of-rows interface the layout rules read" % (
+            tuple(fp.params), "a tuple" if ret0[0] == "tuple" else fmt(ret0)[:40]))
+        return
     apps = [c for c in Sp.select("call", qname=fp.qname) if c.callkind == "method" and c.target == ".append"]
     key, val = ("key", ("param", "interventions_dict")), ("val", ("param", "interventions_dict"))
     rows = []
